@@ -1,5 +1,5 @@
 """property -> rules registry (claimed properties only)"""
-from . import rules_state, rules_arith, rules_except, rules_guard, rules_slice, rules_types
+from . import rules_state, rules_arith, rules_except, rules_guard, rules_slice, rules_types, rules_dep, rules_order
 
 RULES = {
     "P1": rules_state.rule_P1,
@@ -16,6 +16,9 @@ RULES = {
     "G5": rules_slice.rule_G5,
     "T1": rules_types.rule_T1,
     "T1c": rules_types.rule_T1c,
+    "D1": rules_dep.rule_D1,
+    "L1": rules_order.rule_L1,
+    "L2": rules_order.rule_L2,
 }
 
 SELFTESTS = {"T1": rules_types.selftest_T1}
@@ -78,6 +81,18 @@ PROPS = {
                        "object-reachable storage (P1: mutable members, const-removing casts, writes and non-const calls/arguments "
                        "rooted at pointer-like members, in every const method of every plan class).",
     },
+    "C12": {
+        "id": "C12",
+        "title": "Adaptive filters report a-priori errors, honour the lock, and converge",
+        "rules": ["L1", "G2"],
+        "clause": "with the lock set no path of LmsFilter/RlsFilter::process writes the coefficient vector (or the RLS inverse "
+                  "correlation); the flag is written only by set_lock_coeffs; y[k] is computed from the pre-update coefficients and "
+                  "e[k] is formed from d and that y before the update; the x/d length guard dominates all indexing",
+        "not_decided": "the identity e = d - y as arithmetic, convergence, the RLS normal-equation equivalence",
+        "explanation": "L1 works on the CFG facts (lock test outcomes that dominate each write) and the statement order of the "
+                       "sample loop of all four instantiations; G2 (restricted to this property: the two process methods) checks the "
+                       "x.size() == d.size() guard.",
+    },
     "C14": {
         "id": "C14",
         "title": "Analytic-signal and frequency-translation tools follow their definitions",
@@ -101,11 +116,22 @@ PROPS = {
     "C20": {
         "id": "C20",
         "title": "Dynamics processors never amplify, follow their static curves, and settle",
-        "rules": ["N1"],
-        "clause": "the static gain computers and their range checks contain no integer-truncated division (slope 1/ratio is real)",
+        "rules": ["N1", "L2"],
+        "clause": "the static gain computers and their range checks contain no integer-truncated division (slope 1/ratio is real); "
+                  "the AGC's max_gain clamp lies on every path between a gain update and its use",
         "not_decided": "gain range [0,1], monotone smoothing, settling, the numerical shape of the knee",
         "explanation": "N1 enumerates every '/' expression of compressor.h, limiter.h, noise-gate.h, agc.cpp/.h and ma-filter.h with "
                        "operand types.",
+    },
+    "C16": {
+        "id": "C16",
+        "title": "Sorting, order statistics and rank correlation match their definitions",
+        "rules": ["D1"],
+        "clause": "each correlation kernel's result (Pearson, Spearman, Kendall, per return statement of corr) may-depends on the "
+                  "contents of both samples - necessary for symmetry and for being the named coefficient at all",
+        "not_decided": "correctness of sort/median/medfilt, the numerical value of the coefficients, ties",
+        "explanation": "D1 computes flow-insensitive may-dependence with control dependence inside each kernel; an absent "
+                       "dependence on a sample's contents is definite because the analysis over-approximates.",
     },
     "C19": {
         "id": "C19",
